@@ -257,5 +257,25 @@ CHECKS["C14"] = {
     ],
 }
 
+CHECKS["C10"] = {
+    "pkg": "./checks/c10",
+    "level": "exploration",
+    "technique": "property-based testing (rapid) of composed algebraic identities and single-field tampering against an independent math/big reference; stateful histories on a real mint for persisted signatures",
+    "rule": ("(a) pure BDHKE: secrets = arbitrary bytes 0..512 (incl. empty, 512, non-UTF-8), blinding scalars uniform plus edges {1,2,n-1,n-2}, keys = the 60 keys of reference-derived keysets and random scalars; oracle: B_ = H(s)+rG, C_ = k*B_, Unblind(...) = k*H(s) computed by the reference only, same C for a second r, Verify true for (s,k) and false for another key of the keyset, a changed secret, C+G, -C, 2C, C_, Y. "
+             "(b) DLEQ: GenerateDLEQ's proof accepted by crypto.VerifyDLEQ, nut12.VerifyBlindSignatureDLEQ and the reference verifier; reference prover with chosen nonces (uniform and edges) accepted by the implementation; wallet proof {e,s,r} accepted by VerifyProofDLEQ / VerifyProofsDLEQ; 16 blind-tuple and 15 proof single-field tampers (e, s, r, A -> other amount's key / other keyset / -A, B_, C_/C, secret, amount, swaps) each rejected by both entry points; wrong-key signature with a well-formed proof for the wrong key rejected; malformed hex / non-canonical encodings never panic and are rejected unless the verified value is unchanged. "
+             "(c) histories on a real mint (fund, swap, rotation, restart, restore): every returned signature carries (e,s) accepted under the published key and under the reference-derived key, C_ = k*B_ by the reference, and RestoreSignatures before and after restart returns identical values that still verify. "
+             "every case is a full pipeline (non-trivial); classes record edge scalars, secret class, tamper kind, persisted signatures; distinct = hash of the inputs."),
+    "level_text": "Generated inputs through the real crypto / nut12 functions and the real mint, judged by identities recomputed with an independent reference; exploration over 10^3-10^5 cases aimed at edge scalars and every tamper kind.",
+    "level_note": "Trusted: harness/ref (math/big secp256k1, NUT-12 prover/verifier pinned to the NUT-12 vectors). Value-preserving re-encodings (upper-case hex, r+n, uncompressed points, bytes appended to a 32-byte scalar which ParseDLEQ truncates) are recorded as observations, not as violations: the statement is about changed values.",
+    "assumptions": ["reference implementation harness/ref correct", "hash values >= n and degenerate points are unreachable and skipped"],
+    "units": [
+        plain("vectors", "^TestSpecVectors$"),
+        rapid("bdhke", "^TestBDHKE$", 600, 30000, qs=4, ts=16),
+        rapid("dleq", "^TestDLEQ$", 320, 10000, qs=8, ts=16),
+        rapid("encoding", "^TestDLEQEncoding$", 1000, 50000, qs=2, ts=16),
+        rapid("mintsigs", "^TestMintSignatures$", 48, 1500, qs=8, ts=16),
+    ],
+}
+
 NOT_APPLICABLE = {}
 HOOK_COMMITS = []
